@@ -142,6 +142,29 @@ def seq_protocol_conformance(tier, seed, res):
     res.coverage["transitions"] += r["generated"]
 
 
+def rice_conformance(tier, seed, res):
+    """RiceSearch.tla bound to src/rice.rs directly: the parameter search is called through the hook verif::rice_find on
+    tie-rich residuals (all on one thread, sizes going up and down); TraceRice.tla predicts order, parameters and bits
+    with the search model (TieRule / BitsHonest, real constants).  Not a listed property by itself: MODEL-DIVERGENCE."""
+    out = os.path.join(vlib.WORK, f"rice-{tier}")
+    import shutil
+    shutil.rmtree(out, ignore_errors=True)
+    summ = vlib.run_fv(["rice", "--tier", tier, "--seed", seed, "--out", out, "--shards", vlib.JVMS])
+    verdicts, states, trans, _ = vlib.run_trace_shards("TraceRice.tla", "TraceRice.cfg", summ["files"], tagp="rice")
+    if len(verdicts) != summ["cases"]:
+        raise ToolError(f"{summ['cases']} direct search calls but {len(verdicts)} verdicts")
+    div = 0
+    for cid, (v, msgs) in sorted(verdicts.items()):
+        if v != "pass":
+            div += 1
+            if div <= 5:
+                print(f"MODEL-DIVERGENCE property=C13 rice-search case={cid} {' '.join(msgs)[:300]}")
+    res.coverage["rice_search_direct_conformance"] = dict(calls=summ["cases"], classes=summ["classes"], accepted_by_TraceRice=summ["cases"] - div,
+                                                          diverged=div, panics=summ["panics"])
+    res.coverage["states"] += states
+    res.coverage["transitions"] += trans
+
+
 def choice_conformance(tier, seed, res):
     """How the encoder decides (EncoderChoice.tla) against encode_fixed_size_frame under all 8 subsets of the
     switches of a decision.  Not a listed property: mismatches are MODEL-DIVERGENCE lines, exit code unaffected."""
@@ -234,6 +257,8 @@ def check_stream(prop, tier, seed, only=None, outdir=None, props=None, accept=No
     if prop == "C13":
         res.coverage["rice_tie_rule_conformance"] = dict(cases_with_divergence=tie_div,
             what="every emitted residual's partition order and parameters equal the prediction of the search model (finest order, smallest parameter among equal costs)")
+    if prop == "C13" and not only and props is None:
+        rice_conformance(tier, seed, res)
     if prop == "C01" and not only and props is None:
         tlaps_lemmas(res)
     if prop == "C09" and not only and props is None:
